@@ -1,6 +1,8 @@
 import Nanite.Model.Fitter
 import Mathlib.Tactic.Ring
 import Mathlib.Tactic.Linarith
+import Mathlib.Tactic.FieldSimp
+import Mathlib.Tactic.NormNum
 /-!
 # C11 – Geometrical correction factor rescales the modulus and nothing else  (partial)
 Power-law models `F = a·E·pw(max (cp − x) 0) + b` with `pw (s·t) = pw s · pw t` on non-negative
@@ -97,6 +99,63 @@ def passStarts (k cp0 : K) (npasses : Nat) : List K := List.replicate npasses (k
 
 theorem c11_initial_guess_measured (k cp0 : K) (n : Nat) : ∀ s ∈ passStarts k cp0 n, s = k * cp0 := by
   intro s hs; exact (List.mem_replicate.mp hs).2
+
+/-! ### contact-point limits
+`_fit` hands lmfit the contact point AND its limits in corrected units (`cp·k`, `min·k`, `max·k`; `none` is an
+absent limit, ±∞ in the code, which `k > 0` leaves where it is) and converts all three back afterwards.  A contact
+point is admissible in corrected units exactly when it is admissible in measured units – for two-sided,
+one-sided and absent limits alike – so the constrained problem with `k` is the constrained k = 1 problem. -/
+
+/-- admissible w.r.t. optional limits -/
+def within (lo hi : Option K) (x : K) : Prop :=
+  (∀ l, lo = some l → l ≤ x) ∧ (∀ h, hi = some h → x ≤ h)
+
+/-- the limits as `_fit` passes them on -/
+def scaleLimit (k : K) (l : Option K) : Option K := l.map (k * ·)
+
+theorem c11_limits_equivalent (k : K) (hk : 0 < k) (lo hi : Option K) (cp : K) :
+    within (scaleLimit k lo) (scaleLimit k hi) (k * cp) ↔ within lo hi cp := by
+  unfold within scaleLimit
+  constructor
+  · rintro ⟨h1, h2⟩
+    refine ⟨fun l hl => ?_, fun h hh => ?_⟩
+    · have := h1 (k * l) (by simp [hl])
+      exact le_of_mul_le_mul_left this hk
+    · have := h2 (k * h) (by simp [hh])
+      exact le_of_mul_le_mul_left this hk
+  · rintro ⟨h1, h2⟩
+    refine ⟨fun l hl => ?_, fun h hh => ?_⟩
+    · cases lo with
+      | none => simp at hl
+      | some l0 =>
+        simp only [Option.map_some, Option.some.injEq] at hl
+        subst hl
+        exact mul_le_mul_of_nonneg_left (h1 l0 rfl) hk.le
+    · cases hi with
+      | none => simp at hh
+      | some h0 =>
+        simp only [Option.map_some, Option.some.injEq] at hh
+        subst hh
+        exact mul_le_mul_of_nonneg_left (h2 h0 rfl) hk.le
+
+/-- the seeded variant that rescales limits only when BOTH are finite is not equivalent: a one-sided limit
+left in measured units excludes the corrected contact point although the measured one is admissible -/
+theorem c11_one_sided_limit_must_scale :
+    within (some (2 : ℚ)) none 3 ∧ ¬ within (some (2 : ℚ)) none ((1 / 2) * 3) := by
+  constructor
+  · exact ⟨fun l hl => by cases hl; norm_num, fun h hh => by cases hh⟩
+  · intro h
+    have := h.1 2 rfl
+    norm_num at this
+
+/-- converting back: the reported limits are the caller's -/
+theorem c11_limits_restored (k : K) (hk : 0 < k) (l : Option K) :
+    (scaleLimit k l).map (· / k) = l := by
+  cases l with
+  | none => rfl
+  | some x =>
+    simp only [scaleLimit, Option.map_some, Option.some.injEq]
+    field_simp
 
 /-- instances: squares are multiplicative over any ordered field -/
 theorem c11_square_multiplicative : Multiplicative (fun t : K => t ^ 2) := by
